@@ -14,7 +14,7 @@ import numpy as np
 from vlib import common
 from checks import _signal as S
 
-LEVEL = "exploration"
+LEVEL = "proof"
 
 
 def lim1(bits):
